@@ -29,7 +29,8 @@ Definition table : list (string * (val -> val)) := [
   ("parse_stxt", Model.TextIO.run_parse_stxt);
   ("parse_fmap", Model.TextIO.run_parse_fmap);
   ("parse_cast", Model.CastIO.run_parse_cast);
-  ("bitd2bmp", Model.BitdIO.run_bitd2bmp)
+  ("bitd2bmp", Model.BitdIO.run_bitd2bmp);
+  ("bitd_history", Model.BitdIO.run_bitd_history)
 ].
 
 Fixpoint lookup (n : string) (t : list (string * (val -> val))) : option (val -> val) :=
